@@ -7,6 +7,10 @@ R7c  bins emptied by reoptimize are refilled on every path to the exit; every co
 R7d  rebisect redistributes the union of the two bins' cells to exactly those two bins
 G14  the initial allocation admits exactly the cells with positive demand
 TW   X/Y twins of refine / coarsen agree (sibling cross-check)
+LV   level discipline: a bin index handed to the base grid (a DensityGrid method called on the grid_ member of the
+     hierarchical placement) is translated through the limits tables, never a bare view-level loop index
+IX   a bin index is never obtained by dividing a coordinate by a nominal bin size (bin limits are floor(i*W/n), not uniform):
+     indices come from loops over the bins or from the search functions
 """
 from ..frontend import AnalysisBroken
 from ..model import qt, loc_str, walk, inner
@@ -44,10 +48,14 @@ def run(ctx, rep, tier):
     rep.rule("W6", "who may write binCells_ / cellBinX_ / cellBinY_", 3)
     rep.rule("R7a", "wholesale binCells_ replacement followed by updateCellToBin()", 5)
     rep.rule("R7b", "setBinCells updates both representations together", 1)
-    rep.rule("R7c", "reoptimize refills the bins it empties; all collected cells reassigned", 3)
+    rep.rule("R7c", "reoptimize refills the bins it empties, empties every bin it collects from; all collected cells reassigned", 4)
     rep.rule("R7d", "rebisect redistributes exactly the two bins' cells to those two bins", 1)
     rep.rule("G14", "initial allocation = cells with positive demand", 1)
     rep.rule("TW", "refine/coarsen X/Y twins agree", 2)
+    rep.rule("LV", "bin indices passed to the base grid are translated through the hierarchy limits", 2)
+    rep.rule("IX", "bin indices are not derived from coordinate / size divisions", 1)
+    check_levels(ctx, rep)
+    check_index_origin(ctx, rep)
     for fld, ok in WRITERS.items():
         from .common import check_writers
         check_writers(ctx, rep, "W6", H + fld, ok, fld)
@@ -110,7 +118,8 @@ def run(ctx, rep, tier):
         body = list(inner(l))[-1]
         if any(y.get("kind") == "CXXMemberCallExpr" and callee_info(y)["qname"] == H + "setBinCells" for y in walk(body)):
             probe = next((c for c in inner(l) if isinstance(c, dict) and c.get("kind")), l)
-            empties = [gc for gc, val, _a, _b in (ctx.guards(ro, probe) or []) if gc[0] == "call" and gc[1] == "empty" and val is False]
+            from .common import nonempty_fact
+            empties = [gc for gc, val, _a, _b in (ctx.guards(ro, probe) or []) if isinstance(val, bool) and nonempty_fact(gc, val) is not None]
             if empties:
                 sn += [n for n in g.nodes if n.kind == "join" and n.ast is l]
     if not clears:
@@ -122,6 +131,61 @@ def run(ctx, rep, tier):
         else:
             rep.violation("R7c", c, ro, "reoptimize can return after emptying bins without refilling them",
                           "cells would vanish from every bin while cellBinX_/cellBinY_ still name the old bin", key="DensityLegalizer::reoptimize|bins emptied and not refilled")
+    # every bin whose cells were collected is emptied (otherwise its cells are both redistributed and left where they were)
+    def range_of(node):
+        p = node.get("_p")
+        while p is not None and p is not ro.body:
+            if p.get("kind") == "CXXForRangeStmt":
+                ch = [c_ for c_ in inner(p) if isinstance(c_, dict)]
+                rng = ch[1] if len(ch) > 1 else None
+                vd = [d for d in inner(rng) if d.get("kind") == "VarDecl"] if rng and rng.get("kind") == "DeclStmt" else []
+                return (canon(children(vd[0])[-1]) if vd and children(vd[0]) else None), p
+            p = p.get("_p")
+        return None, None
+    def own_guards(node, loop):
+        out = []
+        for gc, val, ast, asr in (ctx.guards(ro, node) or []):
+            if asr or not isinstance(val, bool):
+                continue
+            q = ast
+            inside = False
+            while q is not None:
+                if q is loop:
+                    inside = True
+                    break
+                q = q.get("_p")
+            if inside:
+                out.append((gc, val))
+        return out
+    gathers = []
+    for x in walk(ro.body):
+        if x.get("kind") == "CXXForRangeStmt":
+            ch = [c_ for c_ in inner(x) if isinstance(c_, dict)]
+            rng = ch[1] if len(ch) > 1 else None
+            vd = [d for d in inner(rng) if d.get("kind") == "VarDecl"] if rng and rng.get("kind") == "DeclStmt" else []
+            if vd and children(vd[0]):
+                rc = canon(children(vd[0])[-1])
+                if rc[0] == "index" and "binCells_" in pretty(rc) and any(
+                        y.get("kind") == "CXXMemberCallExpr" and callee_info(y)["name"] == "push_back" for y in walk(ch[-1])):
+                    k, lp = range_of(x)
+                    gathers.append((x, k, lp))
+    for c in clears:
+        k, lp = range_of(c)
+        gk = [g_ for g_ in gathers if g_[1] is not None]
+        if k is None or not gk:
+            rep.unknown("R7c", c, ro, "emptied bins vs collected bins", "gather loop / clear loop over a bin list not recognised")
+            continue
+        cg = own_guards(c, lp)
+        same = all(g_[1] == k for g_ in gk)
+        gg = [own_guards(g_[0], g_[2]) for g_ in gk]
+        if same and all(set(cg) <= set(x_) for x_ in gg):
+            rep.holds("R7c", c, ro, "every bin of %s whose cells are collected is emptied (same list, no extra condition)" % pretty(k))
+        else:
+            rep.violation("R7c", c, ro, "bins are emptied under %s but their cells are collected from %s under %s" % (
+                " and ".join(pretty(a) + ("" if v else " [false]") for a, v in cg) or "no condition over " + pretty(k),
+                ", ".join(pretty(g_[1]) for g_ in gk), [" and ".join(pretty(a) for a, v in x_) or "no condition" for x_ in gg]),
+                "a bin that is collected but not emptied keeps its cells while they are also handed to other bins: cells end up in several bins",
+                key="DensityLegalizer::reoptimize|collected bins not all emptied")
     # reallocation loops
     loops = [for_loop_info(x) for x in walk(ro.body) if x.get("kind") == "ForStmt"]
     loops = [l for l in loops if l]
@@ -224,3 +288,136 @@ def _is_whole(x):
     if p.get("kind") == "CXXOperatorCallExpr" and callee_info(p)["name"] == "operator[]":
         return False
     return True
+
+
+# ---- LV / IX ---------------------------------------------------------------------------------
+
+def _has(c, pred):
+    if not isinstance(c, tuple):
+        return False
+    if pred(c):
+        return True
+    return any(_has(x, pred) for x in c if isinstance(x, tuple))
+
+
+def check_levels(ctx, rep):
+    prog = ctx.prog
+    n = 0
+    for f in prog.all_funcs(with_lambdas=False):
+        if f.body is None or f.cls not in (CQ + "HierarchicalDensityPlacement", CQ + "DensityLegalizer"):
+            continue
+        for x in walk(f.body):
+            if x.get("kind") != "CXXMemberCallExpr":
+                continue
+            ci = callee_info(x)
+            if not ci or ci["obj"] is None:
+                continue
+            oc = canon(ci["obj"])
+            if not (oc[0] == "field" and oc[1] == H + "grid_"):
+                continue
+            callee = [g for g in prog.funcs.values() if g.qname == ci["qname"] and len(g.params) == len(ci["args"])]
+            for i, a in enumerate(ci["args"]):
+                from ..model import desugared as _des
+                t = _des(a) or qt(a)
+                if t.replace("const ", "").strip() not in ("int", "unsigned int", "long", "size_t", "unsigned long"):
+                    continue
+                n += 1
+                ac = canon(a)
+                what = "%s: %s(... %s ...) on the base grid" % (f.short, ci["name"], pretty(ac)[:50])
+                if _has(ac, lambda c: c[0] == "field") or ac[0] == "lit":
+                    rep.holds("LV", x, f, what, "the index is read from a member table (level translation)")
+                else:
+                    rep.violation("LV", x, f, what, "a view-level index is handed to the base grid untranslated: in a coarsened view bin (i, j) "
+                                  "of the base grid is a different, smaller region", key="%s|untranslated index to grid_.%s" % (f.short, ci["name"]))
+    if n == 0:
+        rep.unknown("LV", None, None, "calls on grid_ with index arguments", "none found (shape changed)")
+
+
+COORD_FIELDS = ("Rectangle::minX", "Rectangle::maxX", "Rectangle::minY", "Rectangle::maxY")
+COORD_CALLS = ("Rectangle::width", "Rectangle::height")
+PER_BIN_MEMBERS = ("binCapacity_", "binUsage_", "binCells_", "binLimitX_", "binLimitY_", "binX_", "binY_")
+
+
+def check_index_origin(ctx, rep):
+    """IX: taint = value computed by a division whose numerator mentions a coordinate (Rectangle bound / extent). A tainted value
+    must not reach a subscript of a per-bin member or a loop bound of a loop whose variable subscripts one."""
+    from .common import assignments_to
+    prog = ctx.prog
+    n = 0
+    for f in prog.all_funcs(with_lambdas=False):
+        if f.body is None or f.cls not in (CQ + "DensityGrid", CQ + "HierarchicalDensityPlacement", CQ + "DensityLegalizer"):
+            continue
+        memo = {}
+
+        def coord(c):
+            return _has(c, lambda t: (t[0] == "field" and str(t[1]).endswith(COORD_FIELDS)) or (t[0] == "call" and str(t[1]).endswith(COORD_CALLS)))
+
+        def tainted(c, depth=0):
+            if not isinstance(c, tuple) or depth > 10:
+                return False
+            if c[0] == "bin" and c[1] == "/" and coord(c[2]):
+                return True
+            if c[0] == "var":
+                if c[1] in memo:
+                    return memo[c[1]]
+                memo[c[1]] = False
+                d = f.unit.by_id.get(c[1])
+                r = False
+                if d is not None and d.get("kind") == "VarDecl" and children(d):
+                    r = tainted(canon(children(d)[-1]), depth + 1)
+                for _x, rhs in assignments_to(f, c[1]):
+                    r = r or tainted(canon(rhs), depth + 1)
+                memo[c[1]] = r
+                return r
+            if c[0] in ("bin", "call", "un", "cond", "construct"):
+                return any(tainted(x, depth + 1) for x in c[1:] if isinstance(x, tuple))
+            return False
+
+        # loop variables inherit the taint of their bounds
+        loopvars = {}
+        for x in walk(f.body):
+            if x.get("kind") == "ForStmt":
+                info = for_loop_info(x)
+                if info:
+                    loopvars[info["var"][1]] = info
+        for x in walk(f.body):
+            k = x.get("kind")
+            idxs = []
+            if k == "CXXOperatorCallExpr" and callee_info(x) and callee_info(x)["name"] == "operator[]":
+                c = canon(x)
+                if c[0] == "index" and _has(c[1], lambda t: t[0] == "field" and str(t[1]).split("::")[-1] in PER_BIN_MEMBERS):
+                    idxs.append(c[2])
+            elif k == "CXXMemberCallExpr":
+                ci = callee_info(x)
+                if ci and ci["name"] in ("region", "binCapacity", "binUsage", "binLimitX", "binLimitY", "binCells", "binX", "binY") and \
+                        ci["qname"].startswith((CQ + "DensityGrid::", CQ + "HierarchicalDensityPlacement::")):
+                    from ..model import desugared as _des
+                    idxs += [canon(a) for a in ci["args"] if (_des(a) or qt(a)).replace("const ", "").strip() == "int"]
+            for ic in idxs:
+                n += 1
+                bad = tainted(ic)
+                if not bad:
+                    for v in [t for t in _subvars(ic)]:
+                        info = loopvars.get(v)
+                        if info and ((info["lo"] is not None and tainted(info["lo"])) or (info["hi"] is not None and tainted(info["hi"]))):
+                            bad = True
+                if bad:
+                    rep.violation("IX", x, f, "%s: bin index %s derives from a coordinate divided by a nominal bin size" % (f.short, pretty(ic)[:50]),
+                                  "bin limits are floor(i*W/n): the quotient can name a neighbouring bin, and the bin that really contains the "
+                                  "coordinate is skipped", key="%s|bin index from coordinate division" % f.short)
+    if n == 0:
+        rep.unknown("IX", None, None, "per-bin subscripts", "none found (shape changed)")
+    elif not any(i["rule"] == "IX" for i in rep.instances):
+        rep.holds("IX", "-", None, "%d per-bin subscripts / accessor calls: no index derives from a coordinate division" % n)
+        rep.extra["ix_sites"] = n
+
+
+def _subvars(c):
+    out = []
+    if isinstance(c, tuple):
+        if c and c[0] == "var":
+            out.append(c[1])
+        for x in c:
+            if isinstance(x, tuple):
+                out += _subvars(x)
+    return out
